@@ -36,7 +36,7 @@ history:   spec/PkgRelationMemo.tla models a memo layer between caller and refer
            reference Parse of its text whatever was parsed or edited before); SharedNested = TRUE
            (results share nested lists with the memo: the seeded change C13-seedB), alone or with
            DeepStore = TRUE (only the results of hits share), must make TLC report it.  Binding:
-           after every round trip of (a) (quick tier: every 2nd case) and (b) the returned structure is edited in place (append
+           after every 2nd round trip of (a) and every one of (b) the returned structure is edited in place (append
            to every arch list, reverse / extend every restriction formula, pop keys, reorder the
            outer lists), the same string is parsed again, that result is edited and the string
            parsed a third time, then a different relation sharing an alternative makes the round
@@ -53,7 +53,7 @@ concretization dimensions the abstract structure does not have (PkgRelation.tla:
            epochs of 2 .. 19 digits with leading zeros, boundary numbers up to 10**18, 9 .. 101
            conjuncts / alternatives / arch entries / groups / terms, identical items -- in the
            replay (every 16th case, thorough 8th; big counts by repeating the case's items) and
-           in the recorder (4 % of the payloads; 10 / 100 big-count structures per run).  Tokens
+           in the recorder (4 % of the payloads; 10 / 60 big-count structures per run).  Tokens
            are class symbols with ids, so TLC's expectation is length-independent by construction.
 verdict observables: parse_relations(str(r)) == r (TLC: Inverse), no warning (NoWarning), second
            string == first string (Stable), for every call of a history (MemoTransparent); any
@@ -939,9 +939,9 @@ def _replay_chunk(lines):
             # key insertion order of the input dicts: one of the 120 per case (a different one per atom)
             order = (hs >> 4) % len(KEY_ORDERS)
             res["orders"].add(order)
-            # the edited copy of r makes its own round trip for every 4th (thorough: 2nd) case
-            msg, s, r_py = check_case(dr, rel_abs, v["t"], conc, diag, with_copy=(h >> 3) % (4 if quick else 2) == 0,
-                                      history=(not quick) or (h >> 7) % 2 == 0, order=order,
+            # the history follows every 2nd case; the edited copy of r makes its own round trip in every 4th of these
+            msg, s, r_py = check_case(dr, rel_abs, v["t"], conc, diag, with_copy=(h >> 3) % 4 == 0,
+                                      history=(h >> 7) % 2 == 0, order=order,
                                       variants=(hs >> 5) % 8 == 0)
             res["nrun"] += 1
             big = None
@@ -1022,7 +1022,7 @@ def replay_cases(ctx, lines, quick, workers):
         ctx.sample(samples[h])
     ctx.extra["cases_replayed"] = tot["ncase"]
     ctx.extra["real_round_trips_in_replay"] = tot["nrun"]
-    ctx.extra["histories_in_replay"] = ("every 2nd case" if quick else "every case") + ": edit the parsed structure in place, parse the same string again, round trip of a relation sharing an alternative; every %s of these also the round trip of an edited copy and str(r) again" % ("4th" if quick else "2nd")
+    ctx.extra["histories_in_replay"] = "every 2nd case: edit the parsed structure in place, parse the same string again, round trip of a relation sharing an alternative; every 4th of these also the round trip of an edited copy and str(r) again"
     ctx.extra["cases_failing"] = tot["nfail"]
     ctx.extra["key_insertion_orders_used"] = len(orders)
     ctx.extra["size_stressed_cases"] = dict(sorted(sizes.items()))
@@ -1468,7 +1468,7 @@ def _run_parallel(ctx, quick, cfg, mc_dir, workers):
         unspecified_zone(ctx)
 
         def record_and_validate():
-            traces, metas = make_traces(ctx, *((1000, 300, 10) if quick else (12000, 3000, 100)))
+            traces, metas = make_traces(ctx, *((1000, 300, 10) if quick else (8000, 2000, 60)))
             return (traces, metas) + tuple(validate(ctx, traces, True, 2 if quick else 4))
         f_val = pool.submit(record_and_validate)
         # 4. spec -> code: every CASE line, replayed while TLC is still enumerating
